@@ -211,3 +211,79 @@ func instrInLoop(in ssa.Instruction) bool {
 	}
 	return false
 }
+
+// staleReads returns the loads of scalar field st.field in function fnShort
+// (e.g. "hermes.Water") that can be reached from the function entry without
+// passing a store to the same field: the value read may be left over from an
+// earlier call.
+func staleReads(p *Prog, fnShort, st, field string) (loads int, stale []ssa.Instruction, found bool) {
+	s := p.SSA()
+	var fn *ssa.Function
+	for _, f := range s.fns {
+		if shortFn(f) == fnShort {
+			fn = f
+		}
+	}
+	if fn == nil {
+		return 0, nil, false
+	}
+	type site struct {
+		blk *ssa.BasicBlock
+		idx int
+	}
+	stores := map[*ssa.BasicBlock][]int{}
+	var reads []site
+	var readIns []ssa.Instruction
+	for _, b := range fn.Blocks {
+		for i, in := range b.Instrs {
+			switch t := in.(type) {
+			case *ssa.Store:
+				if fa, ok := t.Addr.(*ssa.FieldAddr); ok && ssaFieldIs(fa, st, field) {
+					stores[b] = append(stores[b], i)
+				}
+			case *ssa.UnOp:
+				if t.Op == token.MUL {
+					if fa, ok := t.X.(*ssa.FieldAddr); ok && ssaFieldIs(fa, st, field) {
+						reads = append(reads, site{b, i})
+						readIns = append(readIns, in)
+					}
+				}
+			}
+		}
+	}
+	// blocks reachable from entry without crossing a store; entryClean[b] = b's entry is reachable "dirty"
+	dirtyIn := map[*ssa.BasicBlock]bool{}
+	if len(fn.Blocks) == 0 {
+		return len(reads), nil, true
+	}
+	work := []*ssa.BasicBlock{fn.Blocks[0]}
+	dirtyIn[fn.Blocks[0]] = true
+	for len(work) > 0 {
+		b := work[len(work)-1]
+		work = work[:len(work)-1]
+		if len(stores[b]) > 0 {
+			continue // leaving b the field is defined
+		}
+		for _, sc := range b.Succs {
+			if !dirtyIn[sc] {
+				dirtyIn[sc] = true
+				work = append(work, sc)
+			}
+		}
+	}
+	for k, rd := range reads {
+		if !dirtyIn[rd.blk] {
+			continue
+		}
+		defined := false
+		for _, si := range stores[rd.blk] {
+			if si < rd.idx {
+				defined = true
+			}
+		}
+		if !defined {
+			stale = append(stale, readIns[k])
+		}
+	}
+	return len(reads), stale, true
+}
